@@ -17,7 +17,7 @@ MIN = 60 * SEC
 RULE = (
     "Hypothesis-generated scheduler runs on the virtual-time loop under a controlled wall clock: start instant with "
     "microsecond resolution (biased to :00.000000 / :59.999999 / :30), horizon 3-8 (thorough: -30) virtual minutes, 1-3 "
-    "sources (scripted sources with stable schedule ids; optionally the real LabelScheduleSource), each with 0-3 cron "
+    "sources (scripted sources with stable schedule ids; optionally the real LabelScheduleSource, in half of those cases with two one-shot entries of EQUAL content), each with 0-3 cron "
     "schedules (minute-field variety, optional timedelta/zone offset, one malformed expression) and 0-3 one-shots "
     "with T anywhere in the horizon, biased to minute boundaries +{0, 1 us, 0.5 s, 1 s, 1 s + 1 us} and to the past; "
     "entries appear / disappear at generated poll indexes (dynamic add/remove); send latencies 0-2 s (some crossing a "
@@ -95,6 +95,11 @@ def scenario(max_h: int = 8) -> Any:
                 if kind != "label":
                     e["add_at"], e["remove_at"] = a, (r if r is None or r > a else None)
                 ents.append(e)
+            if kind == "label" and d["dup_label"]:
+                # entries of equal content (same time, same args): distinct schedules all the same, each must be sent
+                shots_ = [e for e in ents if "t_off_us" in e]
+                if shots_:
+                    ents.append(dict(shots_[0]))
             sources.append({"kind": kind, "entries": ents, "fail_polls": sorted(fails) if kind != "label" else []})
         return {"base_us": base, "horizon_min": H, "sources": sources, "latencies": d["latencies"], "kick_fail": sorted(d["kick_fail"])}
 
@@ -108,6 +113,7 @@ def scenario(max_h: int = 8) -> Any:
         "sources": st.lists(src, min_size=1, max_size=3),
         "latencies": st.one_of(st.just([0.0]), st.just([0.0]), st.lists(st.sampled_from([0.0, 0.0, 0.5, 1.0, 2.0, 61.0]), min_size=1, max_size=4)),
         "kick_fail": st.one_of(st.just(set()), st.just(set()), st.sets(st.integers(0, 30), max_size=5)),
+        "dup_label": st.booleans(),
     }).map(fin)
 
 
@@ -140,7 +146,12 @@ def run_case(case: Dict[str, Any]) -> Outcome:
             out.add("C15.a", f"source {name}: poll #{bad} at {_fmt(got[bad]) if bad < len(got) else 'missing'}, expected "
                              f"{_fmt(exp_polls[bad]) if bad < len(exp_polls) else 'none'} ({len(got)} polls, expected {len(exp_polls)})")
             continue
+        seen_ids = set()
         for e in s["entries"]:
+            if e["id"] in seen_ids:
+                continue    # duplicates are judged together with their first occurrence (multiplicity below)
+            seen_ids.add(e["id"])
+            mult = sum(1 for x in s["entries"] if x["id"] == e["id"])
             ks = [k for k in kicks if k["tag"] == e["id"]]
             if "cron" in e:
                 due_minutes = 0
@@ -192,14 +203,16 @@ def run_case(case: Dict[str, Any]) -> Outcome:
                 if kick_failed:
                     classes.add("oneshot_kick_failed")
                     continue  # a failed send affects this schedule's occurrence; only 'not early' is demanded
-                if len(ks) != 1:
+                if len(ks) != mult:
                     shape = "label" if s["kind"] == "label" else "scripted"
-                    if len(ks) > 1:
+                    if len(ks) > mult:
                         info["double"].append({"id": e["id"], "source": shape})
-                    out.add("C15.c", f"one-shot {e['id']} ({shape} source) T={_fmt(T)}: {len(ks)} kicks at "
-                                     f"{[_fmt(k['t']) for k in ks]} (sids {[k['sid'][:6] if k['sid'] else None for k in ks]}), expected exactly 1 at {_fmt(due)}")
-                elif ks[0]["t"] > due + SEC:
-                    out.add("C15.c", f"one-shot {e['id']} T={_fmt(T)} sent at {_fmt(ks[0]['t'])}: more than 1 s after {_fmt(due)}")
+                    out.add("C15.c", f"one-shot {e['id']} ({shape} source, declared {mult}x) T={_fmt(T)}: {len(ks)} kicks at "
+                                     f"{[_fmt(k['t']) for k in ks]} (sids {[k['sid'][:6] if k['sid'] else None for k in ks]}), expected exactly {mult} at {_fmt(due)}")
+                elif max(k["t"] for k in ks) > due + SEC:
+                    out.add("C15.c", f"one-shot {e['id']} (declared {mult}x) T={_fmt(T)} sent at {[_fmt(k['t']) for k in ks]}: more than 1 s after {_fmt(due)}")
+                if mult > 1:
+                    classes.add("equal_label_entries")
     if any(s.get("fail_polls") for s in case["sources"]) or case.get("kick_fail"):
         classes.add("injected_failure")
     if any(l > 60 for l in case.get("latencies", [])) and kicks:
